@@ -212,8 +212,10 @@ impl<'a> Tokenizer<'a> {
     }
 
     fn function_or_reference_token(&self, atom: &'a str, start: usize) -> Result<Token<'a>> {
-        let peek = self.peek()?;
-        if peek.is_open_paren() {
+        // a name is a function name iff the next non-blank character is `(`; looking at the character
+        // (instead of lexing the whole next token, which recursed once per following name) keeps this O(1) deep
+        let next_char = self.chars.clone().find(|(_, ch)| !is_whitespace_char(*ch));
+        if let Some((_, '(')) = next_char {
             return Ok(Token::Function(atom, Span(start, self.current())));
         }
         Ok(Token::Reference(atom, Span(start, self.current())))
